@@ -873,7 +873,14 @@ class SymInt:
         v = self
         if signed:
             v = self & ((1 << (8 * length)) - 1)
-        bs = [(v >> (8 * i)) & 0xFF for i in range(length)]
+        if isinstance(v, SymInt) and _is_bv(v.e) and length:
+            # bytes as direct slices of the value's term (cheap terms; from_bytes recognises and re-joins them)
+            e = v.e
+            if e.size() < 8 * length:
+                e = z3.ZeroExt(8 * length - e.size(), e)
+            bs = [mkint(z3.ZeroExt(1, z3.Extract(8 * i + 7, 8 * i, e)), 0, 255, v.w + 1) for i in range(length)]
+        else:
+            bs = [(v >> (8 * i)) & 0xFF for i in range(length)]
         if byteorder == "big":
             bs.reverse()
         return SymBytes(bs)
